@@ -203,3 +203,53 @@ Proof.
 Qed.
 
 End Walk.
+
+(* ---- the whole list: sources given by the user as paths pre ++ [k] ---- *)
+Definition src := (path * name * node)%type.
+Definition src_path (s : src) : path := let '(pre, k, _) := s in pre ++ [k].
+Definition src_entry (s : src) : name * node := let '(_, k, n) := s in (k, n).
+
+Fixpoint top_files (l : list src) : list pfile :=
+  match l with
+  | [] => []
+  | (pre, k, n) :: r => PF (pre ++ [k]) true (is_dir_node n) :: rexpand (pre ++ [k]) n ++ top_files r
+  end.
+
+Lemma expand_dirs_spec cfs cwd (l : list src) :
+  (forall pre k n, In (pre, k, n) l -> lookup cfs (cwd ++ pre ++ [k]) = Some n) ->
+  expand_dirs cfs cwd (map src_path l) = Some (top_files l).
+Proof.
+  induction l as [|[[pre k] n] r IH]; intro H; [reflexivity|].
+  cbn [map src_path expand_dirs top_files].
+  rewrite (H pre k n) by (left; reflexivity).
+  rewrite IH by (intros; apply H; right; assumption). reflexivity.
+Qed.
+
+Section WalkAll.
+Variable c : ccfg.
+Hypothesis Hnosuffix : cc_suffix c = None.
+
+Lemma walk_all : forall (l : list src) rs,
+  (forall pre k n, In (pre, k, n) l ->
+     wf_names n /\ lookup (cc_fs c) (cc_cwd c ++ pre ++ [k]) = Some n /\ (pre <> [] \/ beq k sentinel = false)) ->
+  client_files c None (top_files l) (repeat Ack (n_acks_list (cc_preserve c) (map src_entry l)) ++ rs) =
+  encode_list (cc_preserve c) (map src_entry l).
+Proof.
+  induction l as [|[[pre k] n] r IH]; intros rs H.
+  - reflexivity.
+  - cbn [top_files map src_entry]. rewrite n_acks_list_cons, encode_list_cons, repeat_app, <- app_assoc.
+    destruct (H pre k n (or_introl eq_refl)) as (Hw & Hl & Hs).
+    rewrite (walk_node c Hnosuffix n pre k true _ _ Hw Hl Hs). f_equal.
+    apply IH. intros. apply H. right. assumption.
+Qed.
+
+Theorem client_all_acks (l : list src) rs :
+  (forall pre k n, In (pre, k, n) l ->
+     wf_names n /\ lookup (cc_fs c) (cc_cwd c ++ pre ++ [k]) = Some n /\ (pre <> [] \/ beq k sentinel = false)) ->
+  client c (top_files l) (repeat Ack (1 + n_acks_list (cc_preserve c) (map src_entry l)) ++ rs) =
+  encode_list (cc_preserve c) (map src_entry l).
+Proof.
+  intro H. unfold client. cbn [repeat Nat.add app expect]. apply walk_all. exact H.
+Qed.
+
+End WalkAll.
